@@ -1,6 +1,6 @@
 (* C31  File selection and path matching follow the documented rules.
    Statements only; every proof is `exact <lemma>`. *)
-From CV Require Import Base.Bytes Base.Glob Path.Defs Path.MatchProofs Path.SpecProofs Path.ListProofs.
+From CV Require Import Base.Bytes Base.Glob Path.Defs Path.MatchProofs Path.SpecProofs Path.ListProofs Path.IterProofs.
 From Coq Require Import Permutation Sorted.
 Local Open Scope N_scope.
 
@@ -64,6 +64,24 @@ Theorem C31_iterator_canon_refuted :
   canon [SL; DOT; DOT; SL; 97] = [SL; 97].
 Proof. exact iter_canon_refuted. Qed.
 Print Assumptions C31_iterator_canon_refuted.
+
+(* The iterator reads a string without empty, "." or ".." components and
+   without trailing separator (canonical_b, a syntactic check) back unchanged. *)
+Theorem C31_iterator_identity_on_canonical a b :
+  canonical_b (join_raw a b) = true -> iter_read a b = join_raw a b.
+Proof. exact (iter_read_canonical a b). Qed.
+Print Assumptions C31_iterator_identity_on_canonical.
+
+Example C31_canonical_examples :
+  canonical_b [47;114;47;115;114;99;47;97;46;99] = true /\     (* "/r/src/a.c" *)
+  canonical_b [97;47;46;46;46;47;46;98] = true /\             (* "a/.../.b" *)
+  canonical_b [47] = true /\ canonical_b [] = true /\
+  canonical_b [97;47;47;98] = false /\                        (* "a//b" *)
+  canonical_b [97;47;46;47;98] = false /\                     (* "a/./b" *)
+  canonical_b [97;47;46;46] = false /\                        (* "a/.." *)
+  canonical_b [97;47] = false /\                              (* "a/" *)
+  canon [47;114;47;115;114;99;47;97;46;99] = [47;114;47;115;114;99;47;97;46;99].
+Proof. vm_compute. repeat split; reflexivity. Qed.
 
 (* FileLister::addFiles on a directory tree: the result contains exactly the
    selected files (a given file unless ignored; below a directory every file
